@@ -98,6 +98,9 @@ def NZDIGIT : Expr := .rule "ASCII_NONZERO_DIGIT" 2 true (.range 49 57)
 
 def IsDigit (c : CP) : Prop := 48 ≤ c ∧ c ≤ 57
 
+@[simp] theorem digitsText_length (ds : List Digit) : (digitsText ds).length = ds.length := by
+  simp [digitsText]
+
 variable {g : Grammar} {inp : Input}
 
 /-- a silent built-in rule around a one-character range, in any context -/
@@ -718,6 +721,10 @@ theorem atomic_wrap (name : String) (s s' : S0) (ps : List Pair) (hv : visibleLi
 theorem atomic_enter (name : String) (b : Bool) : ruleAtomic name 4 b = true := by
   simp [ruleAtomic, hasBit, ATOMIC]
 
+@[simp] theorem visible_leaf4 (name : String) (a b : Nat) :
+    (Pair.mk name 4 a b [] none).visible = [] := by
+  simp [Pair.visible, hasBit, COMPOUND, NONATOMIC, visibleList]
+
 theorem visible_atomic_leaf (name : String) (a b : Nat) (rest : List Pair) (h : visibleList rest = []) :
     visibleList (.mk name 4 a b [] none :: rest) = [] := by
   simp [visibleList, Pair.visible, hasBit, COMPOUND, NONATOMIC, h]
@@ -734,9 +741,9 @@ theorem ev_tInt (hg : TNumberRules g) {s : S0} (hat : s.atomic = true) (i : IntP
   have hb : Ev g inp tIntBody s (.ok (adv s (intText i).length) []) := by
     have := ev_exInt (g := g) hat i hr hf
     obtain ⟨N, h⟩ := this.step
-    exact ev_of_step N fun n hn => by
+    exact ⟨N, fun n hn => by
       have := h n hn
-      simpa [exIntExpr, tIntBody, L0.step] using this
+      simpa [exIntExpr, tIntBody, L0.step] using this⟩
   have hs : ({ s with atomic := ruleAtomic "int" 4 s.atomic } : S0) = s := by
     rw [atomic_enter]; cases s; simp_all
   have := ev_ident_ok (tag := none) (s := s) hl (by rw [hs]; exact hb)
@@ -885,6 +892,309 @@ theorem ev_tNumber (hg : TNumberRules g) (s : S0) (n : Num) {post : Str}
     (by simpa [atomic_enter, tNumberBody, sa] using hbody)
   rw [atomic_wrap _ _ _ _ (by simp [visible_atomic_leaf, visible_tExpPairs])] at this
   simpa [mkPair, ATOMIC, adv, sa, Nat.add_assoc] using this
+
+/-! ### `string`, `inner`, `escape`, `unicode` of tests/grammars/json.pest
+
+    string  = @{ "\"" ~ inner ~ "\"" }
+    inner   = @{ (!("\"" | "\\") ~ ANY)* ~ (escape ~ inner)? }
+    escape  = @{ "\\" ~ ("\"" | "\\" | "/" | "b" | "f" | "n" | "r" | "t" | unicode) }
+    unicode = @{ "u" ~ ASCII_HEX_DIGIT{4} } -/
+
+def tRawExpr : Expr := .group (.seq [(.notP (.group (.choice [(.str [34]), (.str [92])]) none)), ANY]) none
+def tInnerBody : Expr :=
+  .seq [(.rep tRawExpr), (.opt (.group (.seq [(.ident "escape" none), (.ident "inner" none)]) none))]
+def tEscapeBody : Expr :=
+  .seq [(.str [92]), (.group (.choice [(.str [34]), (.str [92]), (.str [47]), (.str [98]), (.str [102]),
+    (.str [110]), (.str [114]), (.str [116]), (.ident "unicode" none)]) none)]
+def tUnicodeBody : Expr := .seq [(.str [117]), (.repExact HEX 4)]
+def tStringBody : Expr := .seq [(.str [34]), (.ident "inner" none), (.str [34])]
+
+structure TStringRules (g : Grammar) : Prop where
+  string : ∃ k, g.lookup "string" = some { name := "string", mod := 4, body := tStringBody, kind := k }
+  inner : ∃ k, g.lookup "inner" = some { name := "inner", mod := 4, body := tInnerBody, kind := k }
+  escape : ∃ k, g.lookup "escape" = some { name := "escape", mod := 4, body := tEscapeBody, kind := k }
+  unicode : ∃ k, g.lookup "unicode" = some { name := "unicode", mod := 4, body := tUnicodeBody, kind := k }
+
+theorem ev_choice_strs_ok' {s : S0} {c : CP} {r : Str} (tl : List Expr) (h : RestAt inp s.pos (c :: r)) :
+    ∀ cs : List CP, c ∈ cs → Ev g inp (.choice (strs1 cs ++ tl)) s (.ok (adv s 1) [])
+  | [], hm => by simp at hm
+  | d :: cs, hm => by
+    by_cases hd : c = d
+    · subst hd; exact ev_choice_ok (ev_str1_ok h)
+    · have hm' : c ∈ cs := by
+        rcases List.mem_cons.mp hm with h1 | h1
+        · exact absurd h1 hd
+        · exact h1
+      exact ev_choice_next (ev_str1_fail h (show c ≠ d from hd)) (ev_choice_strs_ok' tl h cs hm')
+
+theorem ev_choice_strs_skip {s : S0} {r : Str} {res : R0} (tl : List Expr) (h : RestAt inp s.pos r)
+    (htl : Ev g inp (.choice tl) s res) :
+    ∀ cs : List CP, HeadIs (fun c => c ∉ cs) r → Ev g inp (.choice (strs1 cs ++ tl)) s res
+  | [], _ => htl
+  | d :: cs, hh =>
+    ev_choice_next (ev_str1_fail h (hh.mono fun c hc => fun e => hc (by simp [e])))
+      (ev_choice_strs_skip tl h htl cs (hh.mono fun c hc => fun e => hc (by simp [e])))
+
+theorem ev_tRaw_ok {s : S0} (hat : s.atomic = true) {c : CP} (hc : Unescaped c) {r : Str}
+    (h : RestAt inp s.pos (c :: r)) : Ev g inp tRawExpr s (.ok (adv s 1) []) := by
+  have hn : Ev g inp (.choice (strs1 [34, 92])) s .fail :=
+    ev_choice_strs_fail h [34, 92] (by
+      show c ∉ [34, 92]
+      simp only [List.mem_cons, List.not_mem_nil, or_false, not_or]
+      exact ⟨hc.2.1, hc.2.2.1⟩)
+  have h1 := ev_not_ok (ev_group (t := none) hn)
+  have h2 := ev_any (g := g) h
+  have := ev_group (t := none) (ev_seq (evSeq_cons h1 (evSkip_atomic hat) (evSeq_last h2)))
+  simpa [tRawExpr, strs1] using this
+
+theorem ev_tRaw_fail {s : S0} {c : CP} {r : Str} (h : RestAt inp s.pos (c :: r)) (hc : c = 34 ∨ c = 92) :
+    Ev g inp tRawExpr s .fail :=
+  ev_group (ev_exChar_alt1_fail h hc)
+
+def SChar.isRaw : SChar → Bool
+  | .raw _ _ => true
+  | _ => false
+
+/-- number of leading raw characters, and what follows them -/
+def spanRaw : SStr → Nat × SStr
+  | .raw c h :: cs => ((spanRaw cs).1 + 1, (spanRaw cs).2)
+  | cs => (0, cs)
+
+theorem spanRaw_nonraw (c : SChar) (cs : SStr) (h : c.isRaw = false) : spanRaw (c :: cs) = (0, c :: cs) := by
+  cases c <;> first | rfl | simp [SChar.isRaw] at h
+
+theorem spanRaw_length : ∀ cs : SStr, (spanRaw cs).2.length ≤ cs.length
+  | [] => Nat.le_refl _
+  | .raw c h :: cs => by
+    have := spanRaw_length cs
+    simp only [spanRaw, List.length_cons]; omega
+  | .esc e :: cs => Nat.le_refl _
+  | .u a b c d :: cs => Nat.le_refl _
+
+theorem spanRaw_text : ∀ cs : SStr, (sstrText cs).length = (spanRaw cs).1 + (sstrText (spanRaw cs).2).length
+  | [] => rfl
+  | .raw c h :: cs => by
+    have := spanRaw_text cs
+    simp only [spanRaw, sstrText, SChar.text, List.length_append, List.length_cons, List.length_nil]; omega
+  | .esc e :: cs => by simp [spanRaw]
+  | .u a b c d :: cs => by simp [spanRaw]
+
+theorem spanRaw_head : ∀ (cs : SStr) (c : SChar) (rest : SStr), (spanRaw cs).2 = c :: rest → c.isRaw = false
+  | [], c, rest, h => by simp [spanRaw] at h
+  | .raw c0 h0 :: cs, c, rest, h => spanRaw_head cs c rest (by simpa [spanRaw] using h)
+  | .esc e :: cs, c, rest, h => by
+    simp only [spanRaw] at h; injection h with h1 _; subst h1; rfl
+  | .u a b c0 d :: cs, c, rest, h => by
+    simp only [spanRaw] at h; injection h with h1 _; subst h1; rfl
+
+theorem nonraw_text_head (c : SChar) (h : c.isRaw = false) : ∃ t, c.text = 92 :: t := by
+  cases c with
+  | raw c hc => simp [SChar.isRaw] at h
+  | esc e => exact ⟨_, rfl⟩
+  | u a b c d => exact ⟨_, rfl⟩
+
+/-- `(!("\"" | "\\") ~ ANY)*` takes exactly the leading raw characters -/
+theorem evRep_raws :
+    ∀ (cs : SStr) (first : Bool) (s0 : S0) (acc : List Pair) (r : Str),
+      s0.atomic = true → RestAt inp s0.pos (sstrText cs ++ 34 :: r) →
+      EvRep g inp tRawExpr first s0 acc (.ok (adv s0 (spanRaw cs).1) acc) ∧
+        RestAt inp (s0.pos + (spanRaw cs).1) (sstrText (spanRaw cs).2 ++ 34 :: r)
+  | [], first, s0, acc, r, h0, hr => by
+    have hr' : RestAt inp s0.pos (34 :: r) := by simpa [sstrText] using hr
+    refine ⟨?_, by simpa [spanRaw, sstrText] using hr'⟩
+    simp only [spanRaw, adv_zero]
+    cases first with
+    | true => exact evRep_first_stop (ev_tRaw_fail hr' (Or.inl rfl))
+    | false => exact evRep_stop (evSkip_atomic h0) (ev_tRaw_fail hr' (Or.inl rfl))
+  | .raw c hc :: cs, first, s0, acc, r, h0, hr => by
+    have hr' : RestAt inp s0.pos (c :: (sstrText cs ++ 34 :: r)) := by
+      simpa [sstrText, SChar.text] using hr
+    have h1 := ev_tRaw_ok (g := g) h0 hc hr'
+    obtain ⟨ih1, ih2⟩ := evRep_raws cs false (adv s0 1) acc r (by simpa using h0) (by simpa using hr'.tail)
+    refine ⟨?_, by simpa [spanRaw, Nat.add_assoc, Nat.add_comm 1] using ih2⟩
+    have e : (spanRaw (.raw c hc :: cs)).1 = 1 + (spanRaw cs).1 := by simp [spanRaw, Nat.add_comm]
+    rw [e, ← adv_adv]
+    cases first with
+    | true => exact evRep_first_more h1 (by simpa using ih1)
+    | false => exact evRep_more (evSkip_atomic h0) h1 (by simpa using ih1)
+  | .esc e :: cs, first, s0, acc, r, h0, hr => by
+    have hr' : RestAt inp s0.pos (92 :: (e.cp :: (sstrText cs ++ 34 :: r))) := by
+      simpa [sstrText, SChar.text] using hr
+    refine ⟨?_, by simpa [spanRaw] using hr⟩
+    simp only [spanRaw, adv_zero]
+    cases first with
+    | true => exact evRep_first_stop (ev_tRaw_fail hr' (Or.inr rfl))
+    | false => exact evRep_stop (evSkip_atomic h0) (ev_tRaw_fail hr' (Or.inr rfl))
+  | .u a b c d :: cs, first, s0, acc, r, h0, hr => by
+    have hr' : RestAt inp s0.pos (92 :: (117 :: a.cp :: b.cp :: c.cp :: d.cp :: (sstrText cs ++ 34 :: r))) := by
+      simpa [sstrText, SChar.text] using hr
+    refine ⟨?_, by simpa [spanRaw] using hr⟩
+    simp only [spanRaw, adv_zero]
+    cases first with
+    | true => exact evRep_first_stop (ev_tRaw_fail hr' (Or.inr rfl))
+    | false => exact evRep_stop (evSkip_atomic h0) (ev_tRaw_fail hr' (Or.inr rfl))
+
+theorem ev_tUnicode (hg : TStringRules g) {s : S0} (hat : s.atomic = true) (a b c d : Hex) {r : Str}
+    (h : RestAt inp s.pos (117 :: a.cp :: b.cp :: c.cp :: d.cp :: r)) :
+    Ev g inp (.ident "unicode" none) s (.ok (adv s 5) [.mk "unicode" 4 s.pos (s.pos + 5) [] none]) := by
+  obtain ⟨k, hl⟩ := hg.unicode
+  have hsk : ∀ k, EvSkip g inp (adv s k) (adv s k) [] := fun k => evSkip_atomic (by simpa using hat)
+  have hu := ev_str1_ok (g := g) h
+  have t1 := h.tail
+  have t2 := t1.tail
+  have t3 := t2.tail
+  have t4 := t3.tail
+  have x1 := ev_hex (g := g) (s := adv s 1) a (by simpa using t1)
+  have x2 := ev_hex (g := g) (s := adv s 2) b (by simpa [Nat.add_assoc] using t2)
+  have x3 := ev_hex (g := g) (s := adv s 3) c (by simpa [Nat.add_assoc] using t3)
+  have x4 := ev_hex (g := g) (s := adv s 4) d (by simpa [Nat.add_assoc] using t4)
+  have hx : Ev g inp (.repExact HEX 4) (adv s 1) (.ok (adv s 5) []) := by
+    apply ev_repExact
+    show EvSeq g inp [HEX, HEX, HEX, HEX] (adv s 1) [] _
+    have := evSeq_cons (acc := []) x1 (by simpa [adv_adv] using hsk 2)
+      (evSeq_cons (by simpa [adv_adv] using x2) (by simpa [adv_adv] using hsk 3)
+        (evSeq_cons (by simpa [adv_adv] using x3) (by simpa [adv_adv] using hsk 4)
+          (evSeq_last (by simpa [adv_adv] using x4))))
+    simpa [adv_adv] using this
+  have hb := ev_seq (evSeq_cons hu (hsk 1) (evSeq_last hx))
+  have hs : ({ s with atomic := ruleAtomic "unicode" 4 s.atomic } : S0) = s := by
+    rw [atomic_enter]; cases s; simp_all
+  have := ev_ident_ok (tag := none) (s := s) hl (by rw [hs]; simpa [tUnicodeBody] using hb)
+  rw [atomic_wrap _ _ _ _ rfl, same_atomic _ _ hat] at this
+  simpa using this
+
+theorem escChoice_eq :
+    [(Expr.str [34]), (.str [92]), (.str [47]), (.str [98]), (.str [102]), (.str [110]), (.str [114]),
+      (.str [116]), (.ident "unicode" none)] = strs1 escChars ++ [.ident "unicode" none] := rfl
+
+/-- an escape as written is one `escape` -/
+theorem ev_tEscape (hg : TStringRules g) {s : S0} (hat : s.atomic = true) (c : SChar) (hc : c.isRaw = false)
+    {r : Str} (h : RestAt inp s.pos (c.text ++ r)) :
+    Ev g inp (.ident "escape" none) s
+      (.ok (adv s c.text.length) [.mk "escape" 4 s.pos (s.pos + c.text.length) [] none]) := by
+  obtain ⟨k, hl⟩ := hg.escape
+  have hs : ({ s with atomic := ruleAtomic "escape" 4 s.atomic } : S0) = s := by
+    rw [atomic_enter]; cases s; simp_all
+  have hsk : ∀ k, EvSkip g inp (adv s k) (adv s k) [] := fun k => evSkip_atomic (by simpa using hat)
+  suffices hb : ∃ ps, visibleList ps = [] ∧ Ev g inp tEscapeBody s (.ok (adv s c.text.length) ps) by
+    obtain ⟨ps, hv, hb⟩ := hb
+    have := ev_ident_ok (tag := none) (s := s) hl (by rw [hs]; exact hb)
+    rw [atomic_wrap _ _ _ _ hv, same_atomic _ _ hat] at this
+    simpa using this
+  cases c with
+  | raw c hc' => simp [SChar.isRaw] at hc
+  | esc e =>
+    have h' : RestAt inp s.pos (92 :: (e.cp :: r)) := by simpa [SChar.text] using h
+    have h1 := ev_str1_ok (g := g) h'
+    have h2 : Ev g inp (.choice (strs1 escChars ++ [.ident "unicode" none])) (adv s 1) (.ok (adv (adv s 1) 1) []) :=
+      ev_choice_strs_ok' _ (by simpa using h'.tail) escChars (esc_mem e)
+    have := ev_seq (evSeq_cons h1 (hsk 1) (evSeq_last (ev_group (t := none) h2)))
+    exact ⟨[], rfl, by simpa [SChar.text, tEscapeBody, escChoice_eq, adv_adv] using this⟩
+  | u a b c d =>
+    have h' : RestAt inp s.pos (92 :: (117 :: a.cp :: b.cp :: c.cp :: d.cp :: r)) := by
+      simpa [SChar.text] using h
+    have h1 := ev_str1_ok (g := g) h'
+    have t1 : RestAt inp (adv s 1).pos (117 :: a.cp :: b.cp :: c.cp :: d.cp :: r) := by simpa using h'.tail
+    have hu := ev_tUnicode hg (s := adv s 1) (by simpa using hat) a b c d t1
+    have h2 : Ev g inp (.choice (strs1 escChars ++ [.ident "unicode" none])) (adv s 1)
+        (.ok (adv (adv s 1) 5) [.mk "unicode" 4 (adv s 1).pos ((adv s 1).pos + 5) [] none]) :=
+      ev_choice_strs_skip _ t1 (ev_choice_ok hu) escChars (by show (117 : CP) ∉ escChars; decide)
+    have := ev_seq (evSeq_cons h1 (hsk 1) (evSeq_last (ev_group (t := none) h2)))
+    exact ⟨_, visible_atomic_leaf _ _ _ [] rfl,
+      by simpa [SChar.text, tEscapeBody, escChoice_eq, adv_adv] using this⟩
+
+theorem ev_tEscape_fail (hg : TStringRules g) {s : S0} {r : Str} (h : RestAt inp s.pos (34 :: r)) :
+    Ev g inp (.ident "escape" none) s .fail := by
+  obtain ⟨k, hl⟩ := hg.escape
+  exact ev_ident_fail (tag := none) hl
+    (ev_seq (evSeq_fail (ev_str1_fail (r := 34 :: r) h (by show (34 : CP) ≠ 92; decide))))
+
+/-- `inner` takes the whole body of the string, up to the closing quote -/
+theorem ev_tInner (hg : TStringRules g) :
+    ∀ (n : Nat) (cs : SStr), cs.length ≤ n → ∀ (s : S0) (r : Str), s.atomic = true →
+      RestAt inp s.pos (sstrText cs ++ 34 :: r) →
+      Ev g inp (.ident "inner" none) s
+        (.ok (adv s (sstrText cs).length) [.mk "inner" 4 s.pos (s.pos + (sstrText cs).length) [] none]) := by
+  intro n
+  induction n with
+  | zero =>
+    intro cs hn s r hat hr
+    have : cs = [] := List.eq_nil_of_length_eq_zero (by omega)
+    subst this
+    obtain ⟨k, hl⟩ := hg.inner
+    have hs : ({ s with atomic := ruleAtomic "inner" 4 s.atomic } : S0) = s := by
+      rw [atomic_enter]; cases s; simp_all
+    obtain ⟨h1, h2⟩ := evRep_raws (g := g) [] true s [] r hat hr
+    have hq : RestAt inp s.pos (34 :: r) := by simpa [sstrText] using hr
+    have hopt := ev_opt_none (ev_group (t := none) (ev_seq (evSeq_fail (rest := [.ident "inner" none])
+      (ev_tEscape_fail hg hq))))
+    have hb := ev_seq (evSeq_cons (ev_rep h1) (evSkip_atomic (by simpa using hat)) (evSeq_last
+      (by simpa [spanRaw, adv_zero] using hopt)))
+    have := ev_ident_ok (tag := none) (s := s) hl (by rw [hs]; simpa [tInnerBody] using hb)
+    rw [atomic_wrap _ _ _ _ (by simp [visibleList])] at this
+    simpa [spanRaw, sstrText, adv_zero, same_atomic s 0 hat] using this
+  | succ n ih =>
+    intro cs hn s r hat hr
+    obtain ⟨k, hl⟩ := hg.inner
+    have hs : ({ s with atomic := ruleAtomic "inner" 4 s.atomic } : S0) = s := by
+      rw [atomic_enter]; cases s; simp_all
+    obtain ⟨h1, h2⟩ := evRep_raws (g := g) cs true s [] r hat hr
+    have hlen := spanRaw_text cs
+    cases hrest : (spanRaw cs).2 with
+    | nil =>
+      rw [hrest] at h2 hlen
+      have hq : RestAt inp (adv s (spanRaw cs).1).pos (34 :: r) := by simpa [sstrText] using h2
+      have hopt := ev_opt_none (ev_group (t := none) (ev_seq (evSeq_fail (rest := [.ident "inner" none])
+        (ev_tEscape_fail hg hq))))
+      have hb := ev_seq (evSeq_cons (ev_rep h1) (evSkip_atomic (by simpa using hat)) (evSeq_last hopt))
+      have := ev_ident_ok (tag := none) (s := s) hl (by rw [hs]; simpa [tInnerBody] using hb)
+      rw [atomic_wrap _ _ _ _ (by simp [visibleList])] at this
+      have e : (sstrText cs).length = (spanRaw cs).1 := by simpa [sstrText] using hlen
+      rw [e]
+      simpa [adv] using this
+    | cons c rest =>
+      rw [hrest] at h2 hlen
+      have hc := spanRaw_head cs c rest hrest
+      have hrl : rest.length ≤ n := by
+        have := spanRaw_length cs
+        rw [hrest] at this
+        simp only [List.length_cons] at this; omega
+      have h2' : RestAt inp (adv s (spanRaw cs).1).pos (c.text ++ (sstrText rest ++ 34 :: r)) := by
+        simpa [sstrText, List.append_assoc] using h2
+      have he := ev_tEscape hg (s := adv s (spanRaw cs).1) (by simpa using hat) c hc h2'
+      have hi := ih rest hrl (adv (adv s (spanRaw cs).1) c.text.length) r (by simpa using hat)
+        (by simpa using h2'.advance)
+      have hopt := ev_opt_ok (ev_group (t := none) (ev_seq
+        (evSeq_cons he (evSkip_atomic (by simpa using hat)) (evSeq_last hi))))
+      have hb := ev_seq (evSeq_cons (ev_rep h1) (evSkip_atomic (by simpa using hat)) (evSeq_last hopt))
+      have := ev_ident_ok (tag := none) (s := s) hl (by rw [hs]; simpa [tInnerBody] using hb)
+      rw [atomic_wrap _ _ _ _ (by simp [visibleList])] at this
+      have e : (sstrText cs).length = (spanRaw cs).1 + (c.text.length + (sstrText rest).length) := by
+        simpa [sstrText] using hlen
+      rw [e]
+      simpa [adv, Nat.add_assoc] using this
+
+/-- **`string` of tests/grammars/json.pest accepts every RFC 8259 string**, as one childless
+    pair spanning the quotes (the raw source slice is the span minus the quotes). -/
+theorem ev_tString (hg : TStringRules g) (s : S0) (cs : SStr) {r : Str}
+    (h : RestAt inp s.pos (strText cs ++ r)) :
+    Ev g inp (.ident "string" none) s (.ok (adv s (strText cs).length) [mirrorStr .tests s.pos cs]) := by
+  obtain ⟨k, hl⟩ := hg.string
+  have h' : RestAt inp s.pos (34 :: (sstrText cs ++ 34 :: r)) := by
+    simpa [strText, List.append_assoc] using h
+  let sa : S0 := { s with atomic := true }
+  have hq1 : Ev g inp (.str [34]) sa (.ok (adv sa 1) []) := ev_str1_ok (s := sa) h'
+  have hin := ev_tInner hg cs.length cs (Nat.le_refl _) (adv sa 1) r rfl (by simpa using h'.tail)
+  have hr2 : RestAt inp (adv (adv sa 1) (sstrText cs).length).pos (34 :: r) := by
+    have := (h'.tail).advance
+    simpa [sa, Nat.add_assoc] using this
+  have hq2 := ev_str1_ok (g := g) hr2
+  have hsk : ∀ t : S0, t.atomic = true → EvSkip g inp t t [] := fun t ht => evSkip_atomic ht
+  have hbody := ev_seq (evSeq_cons hq1 (hsk _ rfl) (evSeq_cons hin (hsk _ rfl) (evSeq_last hq2)))
+  have := ev_ident_ok (tag := none) (s := s) hl (by simpa [atomic_enter, tStringBody, sa] using hbody)
+  rw [atomic_wrap _ _ _ _ (by simp [visibleList])] at this
+  rw [strText_length]
+  simpa [mirrorStr, mkPair, ATOMIC, adv, sa, strText_length, Nat.add_assoc, Nat.add_comm 1] using this
 
 end Json
 end Pest
